@@ -25,6 +25,9 @@ NA = {
 
 # property -> (category, technique, level text, level note, design ref)
 CLAIMED = {
+    "C05": ("model_checking", "symbolic execution of the real model (evaluate_mapping/run_model on sympy symbols) vs guarded-unrolling executor, decided by z3 (bounded SMT)",
+            "Bounded SMT: for each of ~150 (quick) / ~900 (thorough) mapping skeletons the real model runs once with every numeric input symbolic; z3 shows each read/write/compute count equals an operational loop-nest executor for all trip counts in [1,3]/[1,4] per loop and all positive bit widths, values-per-action, energies, throughputs; energy/latency columns are shown to be the documented functions of those counts for arbitrary tile shapes.",
+            "Skeleton family: MM/MV/CONV1 on 2-3 level hierarchies with optional Toll, <=2 temporal loops per rank variable, no spatial loops; mixed skip_initial_output_write flags follow the semantics pinned by tests/test_model.py (a component's flag governs its own actions); sympy cancel/expand in the trusted base; a concrete validation sweep (real code on numbers vs naive simulator) accompanies every instantiation.", "4/C05"),
     "C30": ("model_checking", "real cost functions called on z3 terms, compared with guarded link-by-link routing sums (bounded SMT)",
             "Bounded SMT: per_loop_transfer_cost of both topology models is executed on z3 terms (fan-out n symbolic in 1..32/64, volume unbounded real, stride case-split over 1..8/16); z3 shows reported total hops and max link traffic equal a routing reference for every n and volume.",
             "Non-distributed source co-located with destination 0; straight-line mesh routes; distributed sources and partially relevant loops outside; known finding: single-destination multicast traffic.", "4/C30"),
